@@ -38,6 +38,15 @@ class YLock(shim.Lock):
   def locked(self):
     return self._s.op(f'locked {self.name}', lambda: True, lambda alt: self.owner is not None)
 
+  def release(self):
+    """CPython's `threading.Lock` may be released by ANY thread (two threads of one pool do exactly that with
+    `Worker._lock`); only releasing an unlocked lock is an error.  (The stock shim checks the owner.)"""
+    def eff(alt):
+      if self.owner is None:
+        raise RuntimeError('release unlocked lock')
+      self.owner, self.count = None, 0
+    return self._s.op(f'release {self.name}', lambda: True, eff)
+
 
 def threading_facade(sched):
   m = shim.threading_module(sched)
@@ -110,6 +119,7 @@ def run_real(case, max_steps=4000):
   enabled = []        # enabled tids before every step
   snaps = []          # public observations before every step (and one after the last)
   cur_op = {}
+  opinfo = {}       # what a `deliver` delivered (transport-side fact, recorded by the harness)
   results = {}
   state = {}
   saved_threading = courier_utils.threading
@@ -163,7 +173,13 @@ def run_real(case, max_steps=4000):
           sl=[w._states_lock.owner is not None for w in workers],  # the shim's own lock object (harness side)  pylint: disable=protected-access
           reg=[reg.data.get(a, 'absent') for a in addrs])
 
-    def do_pool(o):
+    def safe_get(a):
+      if reg._lock.owner is None:  # pylint: disable=protected-access
+        return reg.get(a)
+      v = reg.data.get(a)          # a cut run can leave the registry lock held by a stopped thread
+      return 0 if v is None else v
+
+    def do_pool(o, tid=None, j=None):
       pool = pools[o['p']]
       op = o['op']
       if op == 'acquire_all':
@@ -184,7 +200,7 @@ def run_real(case, max_steps=4000):
         return None
       raise ValueError(op)
 
-    def do_env(o):
+    def do_env(o, tid=None, j=None):
       op = o['op']
       if op == 'die':
         reg.unregister(addrs[o['w']])
@@ -193,6 +209,13 @@ def run_real(case, max_steps=4000):
       elif op == 'send':
         courier.Client(master).futures.heartbeat(addrs[o['w']], bool(o['alive']))
       elif op == 'deliver':
+        pend = fakecourier.world().pending
+        info = None
+        if pend:
+          c = pend[o['k'] % len(pend)]
+          sender = addrs.index(c.args[0]) if (c.method == 'heartbeat' and c.args and c.args[0] in addrs) else None
+          info = dict(method=c.method, sender=sender, alive=(bool(c.args[1]) if len(c.args) > 1 else True), fail=bool(o['fail']))
+        opinfo[f'{tid},{j}'] = info
         fakecourier.deliver(o['k'], fate=fakecourier.APP_ERROR if o['fail'] else None)
       elif op == 'tick':
         clock.advance(o['d'])
@@ -207,7 +230,7 @@ def run_real(case, max_steps=4000):
         if j:                      # the first operation begins with the thread's own (shim) 'start' step
           sched.step('start')
         cur_op[tid] = j
-        results[tid].append(fn(o))
+        results[tid].append(fn(o, tid, j))
       state[tid] = 'finished'
 
     for tid, th in enumerate(case['threads']):
@@ -226,13 +249,13 @@ def run_real(case, max_steps=4000):
     return dict(
         outcome=outcome, err=err, excs=excs,
         choices=[t for t, _ in sched.choices],
-        steps=steps, enabled=enabled, snaps=snaps,
+        steps=steps, enabled=enabled, snaps=snaps, opinfo=opinfo,
         results=[results.get(t, []) for t in range(len(case['threads']))],
         finished=[state.get(t) == 'finished' for t in range(len(case['threads']))],
         final=dict(locked=final['locked'], owners=final['owners'],
                    available=[[bool(w.is_available(p)) for w in workers] for p in pools],
                    acquired=[[idx[id(w)] for w in p.acquired_workers] for p in pools],
-                   get=[reg.get(a) for a in addrs]),
+                   get=[safe_get(a) for a in addrs]),
         blocked=[list(b) for b in sched.blocked])
   finally:
     _CUR['sched'] = None
@@ -267,7 +290,8 @@ def model_obs(case, r):
               enabled=r['enabled_trace'], enabled_final=r['enabled'], results=r['results'], finished=r['finished'],
               locked=r['locked'], locked_by=r['locked_by'], available=r['available'], acquired=r['acquired'],
               get=r['get'], reg_trace=r['reg_trace'], reg=r['reg'],
-              outcome='done' if all(r['finished']) else ('open' if r['enabled'] else 'deadlock'), nt=nt)
+              outcome='done' if all(r['finished']) else ('open' if r['enabled'] else 'deadlock'), nt=nt,
+              case=dict(threads=case['threads'], nworkers=case['nworkers'], pw=case['pw']))
 
 
 def _canon_res(th, res):
@@ -277,7 +301,8 @@ def _canon_res(th, res):
   return out
 
 
-def compare(obs, m, case):
+def compare(obs, m):
+  case = m['case']
   if obs['outcome'] == 'schedule_rejected':
     return f"real code rejected the schedule: {obs['err']}"
   if obs['excs']:
@@ -299,8 +324,6 @@ def compare(obs, m, case):
     if a != b:
       return f'registry before step {k}: real {a} vs model {b}'
   if obs['outcome'] in ('done', 'deadlock', 'cut'):
-    if obs['outcome'] != 'cut' and sorted(obs['enabled'][-1:] and []) != []:
-      pass
     # results of the operations finished so far (model: values of Owner operations only)
     for t, th in enumerate(case['threads']):
       if th['kind'] != 'pool':
